@@ -35,6 +35,34 @@ func ruleC13(r *Report) {
 			signers[fn] = true
 		}
 	}
+	// what is serialised is the tree Element() built, whole: the emitters of the signed message types (Redirect, Post, Bytes,
+	// SoapRequest and the helpers they reach) remove nothing from it — for a logout message the enveloped Signature is
+	// the only signature it carries, on every binding
+	{
+		var roots []*ssa.Function
+		for _, fn := range p.modFns {
+			if p.InLibrary(fn) && fn.Signature.Recv() != nil && fn.Name() != "Element" && (isMethodOf(fn, "AuthnRequest") || isMethodOf(fn, "LogoutRequest") || isMethodOf(fn, "LogoutResponse") || isMethodOf(fn, "ArtifactResolve")) {
+				roots = append(roots, fn)
+			}
+		}
+		strip := ""
+		for fn := range p.ReachableModuleOnly("vta", roots...) {
+			if !p.InLibrary(fn) {
+				continue
+			}
+			for _, b := range fn.Blocks {
+				for _, in := range b.Instrs {
+					if c, ok := in.(*ssa.Call); ok && c.Call.StaticCallee() != nil {
+						nm := c.Call.StaticCallee().String()
+						if strings.HasPrefix(nm, "(*"+etreePath+".Element).Remove") {
+							strip = firstNonEmpty(strip, p.FnName(fn)+" calls "+c.Call.StaticCallee().Name()+" at "+p.InstrPos(c))
+						}
+					}
+				}
+			}
+		}
+		r.Check(strip == "", "C13.emitted", "emitters of the signed message types serialise the built tree whole", "-", fmt.Sprintf("no Remove* on the tree in the %d emitter methods and their helpers", len(roots)), "the tree is altered between Element() and serialisation ("+strip+"): a logout message sent through that path loses its enveloped Signature (the redirect binding adds no other), or is emitted with content the signature did not cover")
+	}
 	checkEscape(r, p, "C13.emitted", func(fn *ssa.Function) bool {
 		if fn.Signature.Recv() != nil && (isMethodOf(fn, "AuthnRequest") || isMethodOf(fn, "LogoutRequest") || isMethodOf(fn, "LogoutResponse") || isMethodOf(fn, "ArtifactResolve")) {
 			return true
